@@ -1,5 +1,5 @@
 from ..framework import Spec
-from ..ties_sys import sys_tie, paste_oracle, scenario_tie, fault_sweep_tie
+from ..ties_sys import sys_tie, paste_oracle, scenario_tie, fault_sweep_tie, cli_tie
 from ..scenarios import gen_include_scenario, gen_cond_scenario
 
 SPEC = Spec(pid='C17', coq_needs=['Base', 'Program', 'ProgramProofs', 'ReaderProofs', 'Properties/C17'],
@@ -7,5 +7,7 @@ SPEC = Spec(pid='C17', coq_needs=['Base', 'Program', 'ProgramProofs', 'ReaderPro
                   # includes inside conditional branches (selected or not, resolvable or not)
                   scenario_tie('cond_programs', gen_cond_scenario, 150, 3000),
                   fault_sweep_tie(['diamond_include', 'nested_dup_include', 'dup_include', 'missing_include', 'ambiguous_include',
-                                   'includer_file_label', 'cross_file'])],
+                                   'includer_file_label', 'cross_file', 'dup_label_same_line']),
+                  # the real command line, called the way a build script does (from the source directory, bare file name, -I .)
+                  cli_tie('C17', n_quick=60, n_thorough=800, relative=True)],
             oracles=[paste_oracle()])
